@@ -276,7 +276,18 @@ def r4_coercers(ctx):
         )
     # _validate_set assigns whenever the key is present
     vs = cm.classes['BaseConfig'].methods.get('_validate_set')
-    oks = any(isinstance(t, ast.Try) and any('KeyError' in handler_catches(h) for h in t.handlers) and any(isinstance(c, ast.Call) and dotted(c.func) == 'setattr' for s in t.orelse for c in ast.walk(s)) for t in walk_local(vs.node))
+    from ..cfg import cfg_of as _cfg_of
+
+    vcfg = _cfg_of(vs.node)
+    sets = [enclosing_stmt(c) for c in calls_in(vs.node) if dotted(c.func) == 'setattr']
+    set_nodes = [n for st in sets for n in vcfg.nodes_of(st, 'stmt')]
+    oks = False
+    for t in walk_local(vs.node):
+        if isinstance(t, ast.Try) and any('KeyError' in handler_catches(h) for h in t.handlers) and t.body:
+            present = vcfg.nodes_of(t.body[-1], 'ok') or vcfg.nodes_of(t.body[-1], 'stmt')
+            absent = [n for h in t.handlers for n in vcfg.nodes_of(h, 'handler')]
+            # key present -> every path to the end assigns; key absent -> no path assigns
+            oks = bool(set_nodes) and bool(present) and all(vcfg.path(p, [vcfg.exit], avoid=set_nodes, kinds=('normal',)) is None for p in present) and all(vcfg.path(a, set_nodes) is None for a in absent)
     ctx.check(oks, 'C19.R4', f'{func_label(vs)}|validate-set-shape', loc(vs, vs.node), '_validate_set: missing key -> unchanged, present key -> setattr(validated value)', '_validate_set changed')
     # CLI
     cl = corpus.module('cli')
@@ -355,6 +366,41 @@ def r5_exclusions(ctx):
         ctx.check(any(w <= g for g in have), 'C19.R5', f'{cl.rel}|cli-exclusive:{"/".join(sorted(w))}', cl.rel, f'CLI: {sorted(w)} are mutually exclusive', f'CLI: {sorted(w)} are no longer in one mutually exclusive group')
 
 
+def _kwonly_selected(f):
+    """every effect of the per-parameter loop happens only for parameters whose kind is KEYWORD_ONLY
+    (guard clause `is not ...: continue` or positive `if kind is ...:` - decided on the CFG)"""
+    from ..cfg import cfg_of
+
+    cfg = cfg_of(f.node)
+    sel = []
+    guards = []
+    for i in walk_local(f.node):
+        if isinstance(i, ast.If) and isinstance(i.test, ast.Compare) and len(i.test.ops) == 1:
+            c = i.test
+            l, r = c.left, c.comparators[0]
+            if isinstance(r, ast.Attribute) and r.attr == 'kind':
+                l, r = r, l
+            if isinstance(l, ast.Attribute) and l.attr == 'kind' and isinstance(r, ast.Attribute) and r.attr == 'KEYWORD_ONLY':
+                if isinstance(c.ops[0], (ast.Is, ast.Eq)):
+                    sel += cfg.nodes_of(i, 'true')
+                    guards.append(i)
+                elif isinstance(c.ops[0], (ast.IsNot, ast.NotEq)):
+                    sel += cfg.nodes_of(i, 'false')
+                    guards.append(i)
+    if not sel:
+        return False
+    loops = [l for l in walk_local(f.node) if isinstance(l, (ast.For, ast.AsyncFor)) and any(g in list(ast.walk(l)) for g in guards)]
+    if not loops:
+        return False
+    loop = loops[0]
+    for st in ast.walk(loop):
+        if isinstance(st, (ast.Assign, ast.AugAssign, ast.AnnAssign, ast.Expr, ast.Return, ast.Delete)) and st is not loop:
+            for n in cfg.nodes_of(st, 'stmt'):
+                if not cfg.set_dominates(sel, n):
+                    return False
+    return True
+
+
 def r6_custom_backends(ctx):
     corpus = ctx.corpus
     has_init = 'replicat/backends/__init__.py' in corpus.files
@@ -372,7 +418,7 @@ def r6_custom_backends(ctx):
             raise AnalysisError('C19.R6: signature consumer missing')
         ctx.analysed(f)
         s = src(f.node, 3000)
-        ok = 'inspect.signature(' in s and any(isinstance(c, ast.Compare) and isinstance(c.ops[0], ast.IsNot) and isinstance(c.comparators[0], ast.Attribute) and c.comparators[0].attr == 'KEYWORD_ONLY' and isinstance(c.left, ast.Attribute) and c.left.attr == 'kind' for c in ast.walk(f.node))
+        ok = 'inspect.signature(' in s and _kwonly_selected(f)
         ctx.check(ok, 'C19.R6', f'{func_label(f)}|keyword-only-parameters', loc(f, f.node), f'{f.name}: backend options are exactly the keyword-only parameters of the Client constructor', f'{f.name}: selects another parameter kind than the other two consumers')
     pf = fns[1]
     ctx.check(".replace('_', '-')" in src(pf.node, 3000), 'C19.R6', f'{func_label(pf)}|cli-name-mapping', loc(pf, pf.node), 'CLI option name = parameter name with _ -> -', 'CLI option naming changed')
